@@ -31,6 +31,11 @@ def run(chk):
     chk.add_model("KeyRotation as coded with one re-handshake over the open connection: C39_ReHandshakeConverges holds", r)
     vlib.mc("KeyRotation", "MC_KeyRotation_dev_rehsignored.cfg", expect_violation="C39_ReHandshakeConverges", workers=2, timeout=300)
     vlib.mc("KeyRotation", "MC_KeyRotation_reach_rehs.cfg", expect_violation="Reach_ReHandshakeAfterDrift", workers=2, timeout=300)
+    # a tick takes its "now" at its top and rotates at its end; a handshake registered in between is younger than that "now"
+    r = vlib.mc("KeyRotation", "MC_KeyRotation_split.cfg", workers=2, timeout=300)
+    chk.add_model("KeyRotation as coded with ticks split into begin / end and a re-handshake in between: C39_NoEarlyRotation, C39_ReHandshakeConverges hold", r)
+    vlib.mc("KeyRotation", "MC_KeyRotation_dev_negelapsed.cfg", expect_violation="C39_NoEarlyRotation", workers=2, timeout=300)
+    vlib.mc("KeyRotation", "MC_KeyRotation_reach_inside.cfg", expect_violation="Reach_HandshakeInsideTick", workers=2, timeout=300)
     r, hists = vlib.dump_hists("KeyRotation", "MC_KeyRotation_gen.cfg", workers=2, timeout=300)
     chk.add_model("KeyRotation design as coded (IntA=2, IntB=3, skew 1, now<=6): reachable states used as tick schedules", r)
     hists = [h for h in hists if h]
@@ -48,8 +53,10 @@ def run(chk):
                 lines.append("tick n=%s" % rng.choice("ab"))
             elif x < 0.90:
                 lines.append("send from=%s" % rng.choice("ab"))
-            elif x < 0.95:
+            elif x < 0.94:
                 lines.append("rehs from=%s" % rng.choice("ab"))
+            elif x < 0.97:
+                lines.append("tickrace n=%s adv=%d" % (rng.choice("ab"), rng.choice([1, 50, 900])))
             else:
                 lines.append("intrude n=%s k=%d" % (rng.choice("ab"), rng.randrange(100)))
         beh.append(lines)
@@ -61,6 +68,11 @@ def run(chk):
         for ia, ib in ((5, 5), (5, 3600), (3600, 5)):
             beh.insert(0, ["reset ia=%d ib=%d skew=0 seed=3 hpow=0" % (ia, ib), "send from=a", "adv ms=5300", "tick n=a", "tick n=b", "rehs from=%s" % frm, "send from=a", "send from=b",
                            "adv ms=5300", "tick n=b", "tick n=a", "rehs from=%s" % frm, "send from=b"])
+    # a tick in flight while the other end handshakes again: the key material is younger than the tick's "now", nothing is due
+    for n in "ab":
+        for ia, ib in ((300, 300), (5, 3600), (3600, 5)):
+            beh.insert(0, ["reset ia=%d ib=%d skew=0 seed=5 hpow=0" % (ia, ib), "send from=a", "adv ms=1000", "tickrace n=%s adv=50" % n, "send from=a", "send from=b",
+                           "tick n=a", "tick n=b", "send from=b", "tickrace n=%s adv=1" % n, "send from=a"])
     if not thorough:
         beh = beh[:40] + rng.sample(beh[40:], min(len(beh) - 40, 110)) if len(beh) > 150 else beh
     execute(chk, beh, "tlc-schedules+random-phases")
